@@ -202,10 +202,13 @@ func (h *Handler) AddScheduler(name string, args ...string) error {
 		return err
 	}
 	log.Info("create scheduler", zap.String("scheduler-name", s.GetName()), zap.Strings("scheduler-args", args))
+	oldCfg := h.opt.GetScheduleConfig()
 	if err = c.AddScheduler(s, args...); err != nil {
 		log.Error("can not add scheduler", zap.String("scheduler-name", s.GetName()), zap.Strings("scheduler-args", args), errs.ZapError(err))
 	} else if err = h.opt.Persist(c.GetStorage()); err != nil {
 		log.Error("can not persist scheduler config", errs.ZapError(err))
+		// the request is refused: do not leave the scheduler running and listed in the served configuration
+		c.UndoAddScheduler(s.GetName(), oldCfg)
 	}
 	return err
 }
